@@ -28,6 +28,11 @@ Afterwards every drawn segment must belong to exactly one of these traced lines 
 not start at a dot: a stray loop, or a stub at a firefly), and the fireflies must be connected through the
 "line from A ends at B" relation (union-find).
 
+The Lean theorem (Properties/C11_Firefly.lean) covers every well-formed instance with AT LEAST ONE firefly, for all
+board sizes: program <=> arithmetic certificate (Proofs/C11FireflyL1) <=> rules (Proofs/C11FireflySound, ...Complete);
+the rules are stated there by the same tracing (Spec/PuzzleRules/Firefly.lean: `Follows`, `IsLine`, `RulesOn`).  The
+parsing of the clue strings is done here (`_clue_sx`), the Lean model receives the parsed table.
+
 READING (published text is silent; the module's behaviour is followed):
   (a) A board WITHOUT any firefly is not a puzzle of this kind.  The module accepts on such a board the empty drawing
       and ALSO any single closed loop (no branch / crossing / dead end) -- its connectivity device tolerates exactly one
@@ -44,9 +49,9 @@ import itertools
 from . import _loop
 
 NAME = "firefly"
-STATUS = "model+differential"
-THEOREMS = []
-LEAN_FILE = None
+STATUS = "theorem"
+THEOREMS = ["Cspuz.C11.Firefly.program_iff_rules", "Cspuz.C11.Firefly.total"]
+LEAN_FILE = "C11_Firefly"
 LEAN_CMD = "puz_firefly"
 
 # line boards (1 x N, N x 1) can never hold a rule-obeying drawing once a firefly is present (the network needs a cycle):
